@@ -276,6 +276,7 @@ cdef class DTWSeriesMatrixNDim:
 def dtw_series_from_data(data, force_pointers=False):
     cdef DTWSeriesPointers ptrs
     cdef DTWSeriesMatrix matrix
+    cdef DTWSeriesMatrixNDim matrixnd
     cdef intptr_t ptr
     if force_pointers or isinstance(data, list) or isinstance(data, set) or isinstance(data, tuple):
         ptrs = DTWSeriesPointers(len(data))
@@ -290,8 +291,8 @@ def dtw_series_from_data(data, force_pointers=False):
     except ValueError:
         pass
     try:
-        matrix = DTWSeriesMatrixNDim(data)
-        return matrix
+        matrixnd = DTWSeriesMatrixNDim(data)
+        return matrixnd
     except ValueError:
         raise ValueError(f"Cannot convert data of type {type(data)}")
 
